@@ -103,7 +103,7 @@ def _len(interp, v):
     if isinstance(v, SStr):
         return mk_int(z3.Length(v.t))
     if isinstance(v, VDict):
-        return len(v.d)
+        return len(v.d) + len(v.sym)
     if isinstance(v, VSet):
         if v.abstract:
             raise OutOfSubset("len of abstract set")
@@ -649,7 +649,9 @@ def _deepcopy(v):
     if isinstance(v, tuple):
         return tuple(_deepcopy(x) for x in v)
     if isinstance(v, VDict):
-        return VDict({k: _deepcopy(x) for k, x in v.d.items()})
+        r = VDict({k: _deepcopy(x) for k, x in v.d.items()})
+        r.sym = [(kk, _deepcopy(x)) for kk, x in v.sym]
+        return r
     if isinstance(v, VObj):
         return VObj(v.cls, {k: _deepcopy(x) for k, x in v.fields.items()})
     return v
@@ -798,13 +800,13 @@ def _dict_method(interp, d, name):
             raise
 
     def items(i, a, k):
-        return IterVal([(kk, vv) for kk, vv in d.d.items()])
+        return IterVal([(kk, vv) for kk, vv in d.d.items()] + list(d.sym))
 
     def keys(i, a, k):
-        return IterVal(list(d.d.keys()))
+        return IterVal(list(d.d.keys()) + [kk for kk, _ in d.sym])
 
     def values(i, a, k):
-        return IterVal(list(d.d.values()))
+        return IterVal(list(d.d.values()) + [vv for _, vv in d.sym])
 
     m = dict(get=get, items=items, keys=keys, values=values)
     if name in m:
